@@ -167,7 +167,7 @@ def run_contract(prop: str, c: FnContract, reg: Registry, uni: Universe, *, repo
         short = rel.split("/")[-1]
         ex = executor_cls(mod, reg, uni, **(executor_kw or {}))
         ex.contract = c
-        ex.oid_prefix = f"{prop}/{short}::{qual}"
+        ex.oid_prefix = f"{prop}/{short}::{getattr(c, 'oid_name', None) or qual}"     # oid_name: stable obligation ids for a target found by role after a rename
         obls, covers = generate(ex, c, mod, fnode)
         rep.paths = ex.paths
         rep.assumed_used = sorted(ex.assumed_used)
